@@ -275,6 +275,11 @@ def points(tier: str) -> List[Dict[str, Any]]:
                                         "tc_jitter": tj, "order": order, "sources": 1})
     for g in tgaps:
         for tj in (0.0, 1.0):
+            for n in (2, 3):
+                pts.append({"fam": "tc", "n": n, "gaps": [g] * (n - 1), "terminated": True, "content": "probe-last", "tc_jitter": tj,
+                            "order": "timer-first", "sources": 1})
+    for g in tgaps:
+        for tj in (0.0, 1.0):
             pts.append({"fam": "tc", "n": 2, "gaps": [g], "terminated": False, "content": "same-q/no-ka", "tc_jitter": tj,
                         "order": "timer-first", "sources": 2})
     # a cooperating responder multicasts the asked records while the truncated query is being held: the answer owed to
@@ -428,6 +433,11 @@ def judge_tc(problems: List[str], w: World, host: Any, p: Dict[str, Any], t_begi
         elif p["content"] == "same-q/no-ka":
             q = [(TA, 12)] if i == 0 else [(TB, 12)] if i == 1 else [(S1.name, 16)] if i == 2 else [(S1.name, 33)]
             ka = []
+        elif p["content"] == "probe-last":
+            # the packet that ends the train is somebody's probe for a name this host owns: its authority section proposes
+            # records, it does not list known answers - the question is owed its full answer
+            q = [(TB, 12)] if i < n - 1 else [(TA, 12)]
+            ka = []
         else:
             q = [[(TA, 12)], [(TB, 12)], [(S1.name, 33)], [(S1.server, 1)]][i]
             ka = [ka_ptr1] if i == 1 else []
@@ -440,7 +450,8 @@ def judge_tc(problems: List[str], w: World, host: Any, p: Dict[str, Any], t_begi
     script = []
     for i, ((q, ka), t) in enumerate(zip(packets, times)):
         tc = not (term and i == n - 1)
-        data = wire.query([("Q", nm, ty, 1) for nm, ty in q], answers=ka, id_=i + 1, tc=tc)
+        auth = [ka_ptr1, ka_ptr2] if p["content"] == "probe-last" and i == n - 1 else []
+        data = wire.query([("Q", nm, ty, 1) for nm, ty in q], answers=ka, authorities=auth, id_=i + 1, tc=tc)
         script.append((t, data, srcs[i], tc))
     if p.get("sight_ms") is not None:
         w.loop.call_at((t_begin + p["sight_ms"]) / 1000, w.net.inject, host,
